@@ -1,7 +1,8 @@
 (* C01 - Marshal output is valid protobuf carrying exactly the message's values. *)
 From Coq Require Import List ZArith Bool.
 From Pico Require Import Base.Res Base.Mach Wire.Wire Schema.Types Schema.Scalar Ref.Ref
-  Schema.ScalarProofs Enc.Enc Enc.EncProofs Wire.VarintProofs Wire.WireProofs.
+  Schema.ScalarProofs Enc.Enc Enc.EncProofs Wire.VarintProofs Wire.WireProofs
+  Schema.Gen Schema.Interp Schema.EncSpec Schema.EncProgProofs Schema.TEnc.
 Import ListNotations.
 Open Scope Z_scope.
 
@@ -26,12 +27,25 @@ Theorem C01_framing : forall field fn buf p ok,
   any_bytes field fn buf = Ok ((if ok then buf ++ spec_ld field p else buf), ok).
 Proof. exact any_bytes_spec. Qed.
 
-(* PARTIAL. The full statement
-     forall s i m, wf_schema s -> wf_msg s i m ->
-       pico_marshal (gen s) i m = Ok b /\ ref_decode s i b zero = Some (norm m)
-   is not proved; it is decided per run by (a) the correspondence of the executable model
-   (pico_marshal over the regenerated programs) with Marshal on exact bytes and (b) evaluating
-   ref_decode on those bytes, both also against protobuf-go. See DESIGN.md C01. *)
+(* C01_total + encoder half: for every schema the generator accepts and every well-typed value
+   (nil pointers, nil slices and nil maps are just VMsg None / VOpt None / VList [] / VMap []),
+   Marshal never panics and its output is exactly the reference encoding ref_encode of the value -
+   for all 15 kinds over their whole ranges, all shapes (singular, optional, repeated, map, oneof,
+   nested, always-present, picoconv casts), every depth and payload size, every map iteration order. *)
+Theorem C01_marshal_is_reference_encoding : forall fuel s progs idx fs un,
+  gen_all s = GOk progs -> wf_schema_enc s = true -> msg_ok fuel progs idx (Some (fs, un)) = true ->
+  pico_marshal fuel progs idx (fs, un) = Ok (ref_encode fuel s idx fs un).
+Proof. exact T_enc. Qed.
+(* the same for arbitrary (also hand-written) programs of encoder calls: no panic, and what is
+   appended does not depend on the buffer *)
+Theorem C01_total : forall fuel progs idx m buf, msg_ok fuel progs idx m = true ->
+  enc_msg fuel progs idx m buf = Ok (buf ++ fst (sp_msg fuel progs idx m), snd (sp_msg fuel progs idx m)).
+Proof. exact enc_msg_spec. Qed.
+
+(* PARTIAL. What remains of C01 is a statement about the specification alone:
+     ref_decode s i (ref_encode s i m) zero = Some (norm m)     (spec-level round trip)
+   It is not proved; ref_encode/ref_decode are validated against protobuf-go (dynamicpb) on every
+   run, and ref_decode is evaluated on the bytes of every generated message. See DESIGN.md C01. *)
 
 Example C01_nonvacuous : enc_single KSfixed64 false 10 (VInt 3) [] = [81; 3; 0; 0; 0; 0; 0; 0; 0] /\
   enc_single KDouble false 12 (VInt 9223372036854775808) [] = [97; 0; 0; 0; 0; 0; 0; 0; 128].
@@ -40,3 +54,5 @@ Proof. split; vm_compute; reflexivity. Qed.
 Print Assumptions C01_scalar_field.
 Print Assumptions C01_varint_readable.
 Print Assumptions C01_framing.
+Print Assumptions C01_marshal_is_reference_encoding.
+Print Assumptions C01_total.
